@@ -124,6 +124,7 @@ class Effects:
         self.writes, self.bumps, self.resets = set(), set(), set()
         self.calls = set()
         self.ccalls = set()       # (cached callee, argument pattern) edges (round 3)
+        self.ocalls = set()       # (owned component, its cached method, pattern) edges (round 5)
 
     def merge(self, o, through_cache=False):
         """through_cache: `o` are the effects of a cached method called through its cache: its
@@ -136,9 +137,14 @@ class Effects:
         if not through_cache:
             self.dreads |= o.dreads
             self.ccalls |= o.ccalls
+            self.ocalls |= o.ocalls
 
 
 UNKNOWN = object()
+
+
+def _isctr(c):
+    return c.split(".")[-1].startswith("_mut_") or c in CFG.get("counters_by_value", [])
 
 
 class Analyzer:
@@ -148,6 +154,7 @@ class Analyzer:
         self.memo = {}
         self.stack = set()
         self.patterns = {}     # (class, cached method) -> {constant call shape: (pattern, env)}
+        self._pm, self._os = {}, {}
 
     def mro(self, cname):
         return c3(cname, self.classes, self.mro_memo)
@@ -588,9 +595,19 @@ class Analyzer:
             if inner is not None and inner in CFG["owned"]:
                 eff.reads.add(inner)
                 eff.reads.add(inner + ".content")
-                if f.attr in CFG["owned"][inner].get("mutators", []):
+                # round 5: a cached method of the owned object, served from ITS caches
+                oc, od = self.resolve(CFG["owned"][inner].get("class", "?"), f.attr, "funcs")
+                ocls = CFG["owned"][inner].get("class", "?")
+                if od is not None and f.attr in oc.cached:
+                    eff.ocalls.add((inner, f.attr, 0 if not (node.args or node.keywords) else 1))
+                elif od is not None:
+                    # an uncached method of the owned object: the cached methods IT calls
+                    for c, a in self.effects(ocls, oc.name, od, {}).ccalls:
+                        eff.ocalls.add((inner, c, a))
+                osp = self.owned_spec(inner)
+                if f.attr in osp["mutators"]:
                     eff.writes.add(inner + ".content")
-                    for c in CFG["owned"][inner].get("bumps", {}).get(f.attr, []):
+                    for c in osp["bumps"].get(f.attr, []):
                         eff.bumps.add(inner + "." + c)
                 return
             # in-place array methods on fields: self.X.sort() etc.
@@ -599,6 +616,67 @@ class Analyzer:
                 eff.reads.add(inner)
                 return
         self.walk_expr(cname, f, env, eff, selfname)
+
+    # ---- public mutators of a class; owned objects (round 5: derived, not hand-written) ------
+    def public_mutators(self, cname):
+        """name -> write / bump / reset sets of every public method and property setter of the
+        class (by MRO) that writes a field or touches a counter"""
+        if cname in self._pm:
+            return self._pm[cname]
+        self._pm[cname] = {}          # guard against ownership cycles
+        classes = self.classes
+        mro = self.mro(cname)
+        an = self
+        mutators = {}
+        names = set()
+        for c in mro:
+            ci = classes.get(c)
+            if ci is None:
+                continue
+            for n in list(ci.funcs) + ["set:" + s for s in ci.setters]:
+                names.add(n)
+        for n in sorted(names):
+            if n.startswith("set:"):
+                owner, fdef = an.resolve(cname, n[4:], "setters")
+                if n[4:].startswith("_"):
+                    continue
+            else:
+                if n.startswith("_") or n in CFG.get("not_mutators", []):
+                    continue
+                owner, fdef = an.resolve(cname, n, "funcs")
+            if fdef is None:
+                continue
+            decos = [ast.unparse(d) for d in fdef.decorator_list]
+            if "staticmethod" in decos or "classmethod" in decos:
+                continue
+            eff = an.effects(cname, owner.name, fdef, {}, top=True)
+            if eff.writes or eff.bumps or eff.resets:
+                mutators[n] = {"writes": sorted(eff.writes), "bumps": sorted(eff.bumps),
+                               "resets": sorted(eff.resets), "owner": owner.name,
+                               "calls": sorted(eff.calls)}
+        self._pm[cname] = mutators
+        return mutators
+
+    def owned_spec(self, comp):
+        """the owned component as the owner's key sees it — derived from the owned class's own
+        source: the counters of its `__cache_state__` (`Cached.__hash__` of the owner hashes the
+        owned object, i.e. that tuple), its public mutators and which of these counters each
+        bumps.  translate/fields_C01.json only names the component and its class."""
+        if comp in self._os:
+            return self._os[comp]
+        spec = CFG["owned"][comp]
+        ocls = spec.get("class")
+        if ocls not in self.classes:
+            r = {"class": ocls, "state": list(spec.get("state", [])),
+                 "mutators": list(spec.get("mutators", [])), "bumps": dict(spec.get("bumps", {}))}
+        else:
+            self._os[comp] = {"class": ocls, "state": [], "mutators": [], "bumps": {}}
+            state = [c for c in self.cache_state(ocls) if _isctr(c)]
+            muts = self.public_mutators(ocls)
+            r = {"class": ocls, "state": state, "mutators": sorted(muts),
+                 "bumps": {m: [c for c in muts[m]["bumps"] if c in state] for m in muts}}
+        self._os[comp] = r
+        return r
 
     # ---- cache key ---------------------------------------------------------
     def cache_state(self, cname, start=None):
@@ -615,6 +693,12 @@ class Analyzer:
             out = []
             for el in e.elts:
                 x = self.self_attr(el, selfname)
+                # `getattr(self, "_mut_x", 0)`: the component `_mut_x` (idiom of the setters)
+                if x is None and isinstance(el, ast.Call) and isinstance(el.func, ast.Name) \
+                        and el.func.id == "getattr" and len(el.args) >= 2 \
+                        and isinstance(el.args[0], ast.Name) and el.args[0].id == selfname \
+                        and isinstance(el.args[1], ast.Constant) and isinstance(el.args[1].value, str):
+                    x = el.args[1].value
                 out.append(x if x is not None else "<expr:" + ast.unparse(el) + ">")
             return out
         if isinstance(e, ast.IfExp):
@@ -665,15 +749,17 @@ def build_tables():
                                   "owner": c,
                                   # round 3: the method as written (nested view)
                                   "dreads": sorted(eff.dreads),
-                                  "ccalls": sorted(eff.ccalls)}
+                                  "ccalls": sorted(eff.ccalls), "ocalls": sorted(eff.ocalls)}
                 env0 = an.default_env(fdef)
                 general = {"reads": sorted(eff.reads), "dreads": sorted(eff.dreads),
-                           "ccalls": sorted(eff.ccalls), "shape": "general"}
+                           "ccalls": sorted(eff.ccalls), "shape": "general",
+                           "ocalls": sorted(eff.ocalls)}
                 body0 = general
                 if env0 is not None:
                     eff0 = an.effects(cname, c, fdef, env0)
                     body0 = {"reads": sorted(eff0.reads), "dreads": sorted(eff0.dreads),
-                             "ccalls": sorted(eff0.ccalls), "shape": "()"}
+                             "ccalls": sorted(eff0.ccalls), "shape": "()",
+                             "ocalls": sorted(eff0.ocalls)}
                 # bodies[k] = body of argument pattern k (0: no arguments, 1: general, >= 2 below)
                 methods[mname]["bodies"] = [body0, general]
                 methods[mname]["_def"] = (c, fdef)
@@ -690,46 +776,25 @@ def build_tables():
                     c, fdef = m["_def"]
                     effp = an.effects(cname, c, fdef, envp)
                     m["bodies"].append({"reads": sorted(effp.reads), "dreads": sorted(effp.dreads),
-                                        "ccalls": sorted(effp.ccalls), "shape": repr(shape)})
+                                        "ccalls": sorted(effp.ccalls), "shape": repr(shape),
+                                        "ocalls": sorted(effp.ocalls)})
                     progress = True
         for m in methods.values():
             m.pop("_def", None)
-        mutators = {}
-        names = set()
-        for c in mro:
-            ci = classes.get(c)
-            if ci is None:
-                continue
-            for n in list(ci.funcs) + ["set:" + s for s in ci.setters]:
-                names.add(n)
-        for n in sorted(names):
-            if n.startswith("set:"):
-                owner, fdef = an.resolve(cname, n[4:], "setters")
-                if n[4:].startswith("_"):
-                    continue
-            else:
-                if n.startswith("_") or n in CFG.get("not_mutators", []):
-                    continue
-                owner, fdef = an.resolve(cname, n, "funcs")
-            if fdef is None:
-                continue
-            decos = [ast.unparse(d) for d in fdef.decorator_list]
-            if "staticmethod" in decos or "classmethod" in decos:
-                continue
-            eff = an.effects(cname, owner.name, fdef, {}, top=True)
-            if eff.writes or eff.bumps or eff.resets:
-                mutators[n] = {"writes": sorted(eff.writes), "bumps": sorted(eff.bumps),
-                               "resets": sorted(eff.resets), "owner": owner.name,
-                               "calls": sorted(eff.calls)}
+        mutators = dict(an.public_mutators(cname))
         # mutators of owned objects reachable through a key component
+        owned_state = {}
         for comp, spec in CFG["owned"].items():
             if comp in key or any(comp in m["reads"] for m in methods.values()):
-                for mut in spec.get("mutators", []):
+                osp = an.owned_spec(comp)
+                owned_state[comp] = osp["state"]
+                for mut in osp["mutators"]:
                     mutators[f"{comp}.{mut}"] = {
                         "writes": [comp + ".content"],
-                        "bumps": [comp + "." + c for c in spec.get("bumps", {}).get(mut, [])],
+                        "bumps": [comp + "." + c for c in osp["bumps"].get(mut, [])],
                         "resets": [], "owner": spec.get("class", "?")}
         out[cname] = {"mro": mro, "key": key, "methods": methods, "mutators": mutators,
+                      "owned_state": owned_state,
                       "order": topo_order(methods), "maxsize": lru_maxsize(classes)}
     return out
 
@@ -782,6 +847,7 @@ def to_lean(tables, modes=None):
 
     lines = ["/- GENERATED by translate/gen_C01.py from the current /repo working tree — do not edit. -/",
              "import Pyunicorn.Model.MemoNested", "import Pyunicorn.Model.MemoMode",
+             "import Pyunicorn.Model.MemoOwned",
              "namespace Pyunicorn.Generated.StructC01",
              "open Pyunicorn.Memo", ""]
     tabs = []
@@ -798,8 +864,9 @@ def to_lean(tables, modes=None):
             for comp in m["key"]:
                 comps.append(comp)
                 if comp in CFG["owned"]:
-                    comps += [comp + "." + c for c in CFG["owned"][comp].get("state", [])]
-            isctr = lambda c: c.split(".")[-1].startswith("_mut_") or c in CFG.get("counters_by_value", [])  # noqa
+                    comps += [comp + "." + c for c in t.get("owned_state", {}).get(
+                        comp, CFG["owned"][comp].get("state", []))]
+            isctr = _isctr
             ctrs = [c for c in comps if isctr(c)]
             flds = [c for c in comps if not isctr(c)]
             reads = set(m["reads"])
@@ -838,6 +905,57 @@ def to_lean(tables, modes=None):
                  ",\n".join(f'  ("{c}", tbl_{c})' for c in tabs) + "]\n")
     lines.append("def allNTables : List (String × NTable) := [\n" +
                  ",\n".join(f'  ("{c}", ntbl_{c})' for c in tabs) + "]\n")
+    # ---- round 5: owned objects — link records for `Memo.compose` (Model/MemoOwned.lean)
+    isctr_ = lambda c: c.split(".")[-1].startswith("_mut_") or c in CFG.get("counters_by_value", [])  # noqa
+    olinks, ometa = [], {}
+    for cname in tabs:
+        t = tables[cname]
+        for comp, spec in CFG["owned"].items():
+            ocls = spec.get("class")
+            if ocls not in tabs:
+                continue
+            u = tables[ocls]
+            used = comp in t["key"] or any(comp in m["reads"] for m in t["methods"].values())
+            has_calls = any(oc[0] == comp for m in t["methods"].values()
+                            for b in m["bodies"] + [m] for oc in b.get("ocalls", []))
+            if not used or not (u["mutators"] or has_calls):
+                continue
+            if not u["mutators"] and not any(
+                    oc[0] == comp and m.get("owner") == cname for m in t["methods"].values()
+                    for b in m["bodies"] + [m] for oc in b.get("ocalls", [])):
+                # an owned class without mutators (GeoGrid): the pair is emitted for the class that
+                # DEFINES the calling method; subclasses inherit method, call edge and key prefix
+                continue
+            pos = {n: i for i, n in enumerate(t["order"])}
+            upos = {n: i for i, n in enumerate(u["order"])}
+            onames, unames = sorted(t["mutators"]), sorted(u["mutators"])
+            # the owned object's `__cache_state__`, from the owned class's OWN table
+            ctrs = [(fid("ctr:" + c), fid("ctr:" + comp + "." + c)) for c in u["key"] if isctr_(c)]
+            ocalls = []
+            for mname, m in t["methods"].items():
+                for k, b in enumerate(m["bodies"] + [m]):
+                    for oc in b.get("ocalls", []):
+                        if oc[0] == comp and oc[1] in upos:
+                            ocalls.append((pos[mname], k, upos[oc[1]], oc[2]))
+            abstracted = [(onames.index(f"{comp}.{mu}"), unames.index(mu)) for mu in unames
+                          if f"{comp}.{mu}" in onames]
+            dangling = [o for o in onames if o.startswith(comp + ".") and o[len(comp) + 1:] not in unames]
+            olinks.append((cname, comp, ocls, fid(comp + ".content"), ctrs, sorted(ocalls), abstracted))
+            ometa[f"{cname}:{comp}"] = {"class": ocls, "owner_mutators": [
+                o for i, o in enumerate(onames) if i not in [a for a, _ in abstracted]],
+                "owned_mutators": unames, "owned_methods": u["order"], "dangling": dangling,
+                "json_state": spec.get("state", []), "derived_state": [c for c in u["key"] if isctr_(c)],
+                "ocalls": sorted(ocalls)}
+    shift = len(names) + 1000
+    ol = []
+    for cname, comp, ocls, content, ctrs, ocalls, abstracted in olinks:
+        pr = lambda xs: "[" + ", ".join("(" + ", ".join(str(y) for y in x) + ")" for x in xs) + "]"  # noqa
+        lines.append(f"/-- `{cname}.{comp}` : `{ocls}` -/\ndef olink_{cname}_{comp} : OLink := "
+                     f"⟨{content}, {pr(ctrs)}, {pr(ocalls)}, {pr(abstracted)}, {shift}⟩\n")
+        ol.append(f'  ("{cname}", "{comp}", ntbl_{cname}, ntbl_{ocls}, olink_{cname}_{comp})')
+    lines.append("def allOLinks : List (String × String × NTable × NTable × OLink) := [\n"
+                 + ",\n".join(ol) + "]\n")
+    to_lean.ometa = ometa
     # ---- round 4: assignment events of constructors and public mutators (translate/c01_mode.py)
     consts, sites, mtabs = {}, {}, []
     for cname in tabs:
@@ -883,7 +1001,8 @@ def main():
     if not os.path.exists(out) or open(out).read() != text:
         open(out, "w").write(text)
     jpath = os.path.splitext(out)[0] + ".json"
-    json.dump({"tables": tables, "names": names, "modes": modes, "consts": to_lean.consts},
+    json.dump({"tables": tables, "names": names, "modes": modes, "consts": to_lean.consts,
+               "owned": to_lean.ometa},
               open(jpath, "w"), indent=1)
     errs = [c for c, t in tables.items() if "error" in t]
     for c in errs:
